@@ -13,7 +13,7 @@ where
         usize::try_from(n).map_err(|e| io::Error::new(io::ErrorKind::InvalidData, e))
     })?;
 
-    let mut reference_sequences = ReferenceSequences::with_capacity(n_ref);
+    let mut reference_sequences = ReferenceSequences::with_capacity(n_ref.min(1 << 16));
 
     for _ in 0..n_ref {
         let (name, reference_sequence) = read_reference_sequence(reader).await?;
